@@ -113,7 +113,7 @@ pub fn run(rep: &mut Rep) {
     rep.note("acknowledgement write failure: inbound QoS 1/2 PUBLISH (alone, or behind 1-2 earlier messages) whose PUBACK/PUBREC write fails, run() ends, the session is resumed, the broker re-delivers with DUP=1 (and releases): stream contents compared with the model across both connections");
     for qos in [1u8, 2] {
         for before in 0..3usize {
-            for sel in 0..2u8 {
+            for sel in 0..3u8 {
                 let id = format!("ackfail:{qos}:{before}:{sel}");
                 bidx += 1;
                 if !rep.take(bidx, &id) {
@@ -138,13 +138,20 @@ pub fn run(rep: &mut Rep) {
                 w.sim.writer.0.borrow_mut().err_at = Some(at);
                 w.sim.note(|| format!("transport: writes fail from offset {at}"));
                 w.term = Some(Term::WriteErr);
-                let ids: Vec<u32> = if sel == 0 { vec![sid0] } else { vec![sid0, sid1] };
+                let ids: Vec<u32> = if sel != 1 { vec![sid0] } else { vec![sid0, sid1] };
                 w.in_publish(qos, 5, false, &ids, false);
                 w.settle_check();
                 let resumed = w.resume(1, Some(3600), false);
                 w.settle_check();
                 if resumed && !w.blind {
                     w.expected_acks.clear();
+                    if sel == 2 {
+                        // the first message on the new connection is for the other subscription only
+                        w.in_publish(0, 0, false, &[sid1], false);
+                        w.settle_check();
+                        w.in_publish(1, 30, false, &[sid1], false);
+                        w.settle_check();
+                    }
                     w.in_publish(qos, 5, true, &ids, false);
                     w.settle_check();
                     if qos == 2 {
